@@ -239,7 +239,7 @@ def _once(case, acc, nodes):
     acc.tag("ensure_ascii_false", not case["ensure_ascii"])
 
 
-KEY = st.one_of(st.text(alphabet="abcxyz_", min_size=1, max_size=4), values.JSON_TEXT.filter(lambda k: k != ""), st.sampled_from(["_h", "id", "a b", "é", "child"])).filter(lambda k: k not in ("parent", "children", "self", "name"))
+KEY = st.one_of(st.text(alphabet="abcxyz_", min_size=1, max_size=4), values.JSON_TEXT.filter(lambda k: k != ""), st.sampled_from(["_h", "id", "a b", "é", "child", "target", "target", "separator", "node"])).filter(lambda k: k not in ("parent", "children", "self", "name"))
 
 
 @st.composite
